@@ -7,6 +7,7 @@ from . import _rows
 
 PROP = "C06"
 LEVEL = "exploration"
+ANCHORS = ["_solv_inp_curr", "_set_phase_lkup", "set_sys_phases", "set_comp_phases", "System.solve", "_get_inp_current", "_get_outp_voltage"]  # functions whose reached lines are reported in the evidence
 RULE = (
     "cases = random SystemSpecs with 2-5 system phases (durations 1e-3..1e5 s) and random per-component phase "
     "configurations (value tables on loads, active-phase lists on sources/converters/regulators/switches/mux; "
